@@ -10,7 +10,7 @@ from lv import tlc
 
 KEEP = {'submit', 'pstart', 'rbegin', 'dread', 'rend', 'load', 'w_die', 'w_term', 'sample', 'consume', 'died',
         'exec_stop', 'complete', 'capture', 'removed', 'closed', 'int', 'outcome', 'obs_cache', 'obs_marks',
-        'obs_logs', 'lemit', 'obs_ctxstore', 'pb_new', 'pb_upd', 'pb_close'}
+        'obs_logs', 'lemit', 'obs_ctxstore', 'pb_new', 'pb_upd', 'pb_close', 'rest'}
 TOKEN = re.compile(r'msg:\d+:\w:\d+')
 
 
